@@ -85,13 +85,17 @@ func (r *dataSetRdb) Close() {
 	if r.rwRef.Load() == 0 {
 		return
 	}
+	// closing runs the close observers, which come back to DelWriter / DelReader : the lock
+	// must not be held meanwhile (and DelReader edits r.readers in place)
 	r.mux.Lock()
-	defer r.mux.Unlock()
-	if r.writer != nil {
-		r.writer.Close()
+	writer := r.writer
+	readers := append([]*RdbReader(nil), r.readers...)
+	r.mux.Unlock()
+	if writer != nil {
+		writer.Close()
 	}
-	for _, r := range r.readers {
-		r.Close()
+	for _, rd := range readers {
+		rd.Close()
 	}
 }
 
